@@ -188,6 +188,7 @@ def gen_dataset_case(rng, confirm, i):
     files = []
     off = 0
     levels = rng.choice([1, 2])
+    ext = rng.choice([".parquet", ".parquet", ".parq"])
     for j in range(k):
         n = rng.choice([0, 1, 2, 3, 5, 8])
         if shape == "flat":
@@ -198,7 +199,7 @@ def gen_dataset_case(rng, confirm, i):
             d = [rng.choice(["a", "b", "zz"]), rng.choice(["u", "w"])][:levels]
         else:
             d = ["sub%d" % j]
-        name = "f%d.parquet" % j if shape != "subdatasets" else ""
+        name = "f%d%s" % (j, ext) if shape != "subdatasets" else ""
         if cat_mode == "differ":
             cats = rng.sample(["p", "q", "r", "s", "t"], rng.choice([2, 3]))
         elif cat_mode == "same":
@@ -220,7 +221,8 @@ def gen_dataset_case(rng, confirm, i):
     if root_mode == "given" and rng.random() < 0.3:
         root_mode = "given-slash"
     return {"shape": shape, "files": files, "root_mode": root_mode, "cat_mode": cat_mode, "verify": verify,
-            "bad_schema": rng.randrange(1, k) if bad_schema else None, "dup": dup, "relative": relative}
+            "bad_schema": rng.randrange(1, k) if bad_schema else None, "dup": dup, "relative": relative,
+            "junk": rng.random() < 0.3, "dir_slash": rng.random() < 0.3}
 
 
 def _frame(spec, bad=False):
@@ -279,6 +281,9 @@ def check_dataset(case, root, pq, ctx=None, verbose=False):
             p = os.path.join(d, spec["name"])
             write(p, df, compression=spec["codec"], row_group_offsets=[0, 2] if spec["rgo"] else None)
             paths.append(p)
+    if case.get("junk"):           # files that are not parquet data next to the data
+        open(os.path.join(root, "README.txt"), "w").write("not a parquet file\n")
+        open(os.path.join(os.path.dirname(paths[0]) if shape != "subdatasets" else root, ".hidden.crc"), "w").write("x")
     cols = ["id", "v", "s"] + (["c"] if case["cat_mode"] != "none" else [])
     # individual reads (C01's business) and the partition columns the directory names spell
     singles = []
@@ -427,10 +432,10 @@ def _vias(case, root, pq, ctx, compare, plist, paths, order, uniq_order, base, g
     if shape != "subdatasets":
         # ---- via directory and glob: files in the listing order (sorted paths)
         sorted_order = sorted(uniq_order, key=lambda j: paths[j])
-        compare("directory", lambda: ParquetFile(root, verify=verify), sorted_order, root, verify=verify)
+        compare("directory", lambda: ParquetFile(root + ("/" if case.get("dir_slash") else ""), verify=verify), sorted_order, root, verify=verify)
         depth = max(len(f["dir"]) for f in case["files"])
         if all(len(f["dir"]) == depth for f in case["files"]):
-            pattern = os.path.join(root, *(["*"] * depth), "*.parquet")
+            pattern = os.path.join(root, *(["*"] * depth), "*" + os.path.splitext(paths[0])[1])
             compare("glob", lambda: ParquetFile(pattern, verify=verify, **({"root": root} if depth else {})), sorted_order, root, verify=verify)
     # ---- via merge(): writes _metadata, then the dataset opens through it
     if case["bad_schema"] is None:
@@ -444,7 +449,7 @@ def _vias(case, root, pq, ctx, compare, plist, paths, order, uniq_order, base, g
 
 
 def _replayable(case):
-    return {k: case.get(k) for k in ("shape", "files", "root_mode", "cat_mode", "verify", "bad_schema", "dup", "relative")}
+    return {k: case.get(k) for k in ("shape", "files", "root_mode", "cat_mode", "verify", "bad_schema", "dup", "relative", "junk", "dir_slash")}
 
 
 def replay(rep):
